@@ -5,6 +5,8 @@
 * `kpair(...)`    - F.Pair of RecTransports with forced kex / host-key algorithm and a moduli pack.
 * `frame/unframe` - plaintext binary-packet framing for the MITM taps (initial kex is in the clear).
 * `Mitm`          - tap that rewrites / drops / injects plaintext packets of one direction.
+* `SeamPacketizer`- recording packetizer whose owner alters an outgoing message *before* encryption
+                    (faults in exchanges after the first, which a wire tap cannot edit).
 * `EventDriver`   - event-mode driver for a gated pair: the main virtual thread delivers one chunk
                     at a time (positions of the handshake become enumerable).
 * `LyingRSA`      - RSA key that signs with a fixed algorithm regardless of what is asked (C07).
@@ -147,13 +149,13 @@ def agreement(t):
 
 
 def kpair(kex=None, hostkey_alg="ssh-ed25519", gated=False, client_kw=None, server_kw=None,
-          server=None, hostkeys=None, tclass=RecTransport):
+          server=None, hostkeys=None, tclass=RecTransport, sclass=None):
     """Pair of recording transports; the client is restricted to `kex` / `hostkey_alg` (through
     its public SecurityOptions), the server has a moduli pack and the matching host key."""
     if hostkeys is None:
         hostkeys = (HOSTKEY_ALGS[hostkey_alg],)
     p = F.Pair(server=server, hostkeys=hostkeys, client_kw=client_kw, server_kw=server_kw,
-               gated=gated, tclass=tclass)
+               gated=gated, tclass=tclass, sclass=sclass)
     p.ts._modulus_pack = moduli_pack()
     so = p.tc.get_security_options()
     if kex is not None:
@@ -212,6 +214,23 @@ class Mitm:
         for q in new:
             out.append(reframe_like(item, q) if len(new) == 1 else frame(q))
         return out
+
+
+class SeamPacketizer(F.RecPacketizer):
+    """RecPacketizer with a fault seam in front of the cipher: `rewrite_out(raw)` sees every outgoing
+    plaintext message and returns None (keep) or the bytes sent instead.  This is the position of
+    a peer that itself emits an altered message - the only way to alter a message of a *later* key
+    exchange, which travels encrypted and MAC-protected.  `.sent` logs what really went out."""
+
+    rewrite_out = None
+
+    def send_message(self, data):
+        if self.rewrite_out is not None:
+            raw = data.asbytes() if hasattr(data, "asbytes") else bytes(data)
+            new = self.rewrite_out(raw)
+            if new is not None:
+                data = Message(bytes(new))
+        return F.RecPacketizer.send_message(self, data)
 
 
 # ---------------------------------------------------------------------------------- event driver
